@@ -193,6 +193,7 @@ class World:
         self.net.pre_send_observer = self._pre_send
         self.kill_plan: Optional[Tuple[int, list, str]] = None  # (k, [RawClient], 'fin'|'rst'): asynchronous death
         self.mgr_sends = 0
+        self.wait_deaths: Dict[Any, str] = {}  # slot -> 'fin'|'rst': the peer goes away WHILE the manager waits for this logger to become writable
         self.clients: Dict[Any, RawClient] = {}
         kw = dict(ip_address="127.0.0.1", port=PORT, timecode=timecode, log_level=log_level,
                   send_msg_timing=send_msg_timing)
@@ -201,9 +202,18 @@ class World:
             _unmute_rich()
         elif log_level < SILENT:
             _mute_rich()
-        self.mgr = M.MessageManager(**kw)
         if console:
+            import contextlib
+            import io
+
+            # (the constructor already writes a record to the console it has just configured)
+            with contextlib.redirect_stdout(io.StringIO()), contextlib.redirect_stderr(io.StringIO()):
+                self.mgr = M.MessageManager(**kw)
             self._buffer_console()
+        else:
+            self.mgr = M.MessageManager(**kw)
+        if console:
+            pass
         else:
             self._silence_console()
         self.thread = threading.Thread(target=self._main, name="vf-mgr", daemon=True)
@@ -265,6 +275,11 @@ class World:
         if timeout is None:
             # blocking wait for a logger: the logger drains eventually
             self.round.logger_waits.extend(w)
+            for s in w:
+                how = self.wait_deaths.pop(getattr(s, "tag", None), None)
+                if how:
+                    c = self.clients[s.tag]
+                    c.fin() if how == "fin" else c.rst()
             return [], list(w), []
         self.round.write_selects += 1
         return [], [s for s in w if not s.listening and s not in self.nonwritable], []
